@@ -259,6 +259,11 @@ class QuickSampler:
         Stores all current parameters used with the sampler in a list and
         returns this.
         """
+        # A post-selection object can be given further rules after it was
+        # assigned, so the rules it holds now are stored alongside it
+        ps_rules = [
+            r.as_tuple() for r in getattr(self.post_select, "rules", [])
+        ]
         # Store circuit unitary and input state
         return [
             self.__circuit.U_full,
@@ -266,6 +271,7 @@ class QuickSampler:
             self.__circuit.n_modes,
             self.input_state,
             self.post_select,
+            ps_rules,
             self.photon_counting,
         ]
 
